@@ -48,8 +48,9 @@
    # for the bindings in `extra-bindings` (the ones whose behaviour depends on these arguments).
    [(P "n1") :rc] [(P "n1") :rce] [(P "m.txt") :rt] [(P "n1") :rct] [(P "m.txt") :wt] [(P "n1") :wct] [(P "n1") :rwc]
    [(P "m.txt") :rwt] [(P "n1") :c] [(P "m.txt") :t] [(P "n1") :ct] [(P "n1") :ce] [(P "m.txt") :w] [(P "m.txt") :rw]
-   [:unix (P "n2")] [:unix (P "n2") :datagram] [:unix "@c18-abstract"] [:unix (P "n2") noop]])
-(def n-extra 18)    # number of appended shapes above
+   [:unix (P "n2")] [:unix (P "n2") :datagram] [:unix "@c18-abstract"] [:unix (P "n2") noop]
+   ["127.0.0.1" "1" :stream "127.0.0.1" "0"] [:unix (P "n2") :stream "127.0.0.1" "0"]])   # net/connect with bindhost / bindport
+(def n-extra 20)    # number of appended shapes above
 (def extra-bindings {"os/open" true "file/open" true "net/connect" true "net/listen" true "net/address" true "net/server" true})
 
 (def pre-main (if (= mode "same") (make-pre) nil))
